@@ -146,8 +146,11 @@ def listFor (objs : List Obj) : Except Err (List Engine.Entry × List Engine.LPe
     if eng.pods.isEmpty then .ok ([], [])
     else do
       let peers ← eng.peersList
+      let owners ← eng.podOwnersMap
       let entries ← eng.connsBetweenPeers peers ""
-      pure (entries, peers)
+      -- the lines of the ingress controller are part of the report the diff compares
+      let (ing, _) ← IngressA.ingressEntries eng objs owners ""
+      pure (entries ++ ing, peers)
 
 def b01 (b : Bool) : String := if b then "1" else "0"
 
